@@ -202,7 +202,20 @@ func (f *Frame) call(in ssa.Instruction, cc *ssa.CallCommon, st *State) []Term {
 	}
 	if blk != nil && callee == f.topFrame().fn {
 		// recursive call: use the contract (induction hypothesis) + decreases
+		if blk.Flags["pure"] && !blk.Flags["lemma"] {
+			if blk.Dec != nil {
+				top := f.topFrame()
+				d0 := c.evalSpecFn(blk.Dec.Fn, top.argVals, top.entry, snapOf(top.entry), top)[0]
+				d1 := c.evalSpecFn(blk.Dec.Fn, args, st, snapOf(st), f)[0]
+				c.addObl(&Obligation{Name: c.oblName(f.label, "rec-decreases"), Kind: "rec-decreases", Fn: f.label, Pos: f.posOf(in.Pos()), Text: "decreases " + blk.Dec.Text, Reach: st.Reach, Goal: And(Ge(d0, IntLit(0)), Lt(d1, d0)), Clause: blk.Dec})
+			}
+			return f.ufCall(callee, args, st)
+		}
 		return f.applyContract(in, cc, callee, blk, args, st)
+	}
+	if blk != nil && blk.Flags["pure"] && (c.eng.isRecursive(callee) || blk.Flags["opaque"]) {
+		// recursive ghost function in ghost code: uninterpreted function with unfolding
+		return f.ufCall(callee, args, st)
 	}
 	if blk != nil && blk.Flags["pure"] && inlinable(callee) {
 		return f.inline(callee, args, nil, st, in)
